@@ -45,6 +45,14 @@ def seq_op(d, op, is_ref):
         return d.extend([val(x) for x in a[0]])
     if name == 'extendleft':
         return d.extendleft([val(x) for x in a[0]])
+    if name in ('extend_raising', 'extendleft_raising'):
+        # an iterable that fails after yielding its items: what was consumed
+        # stays, as in collections.deque
+        def items():
+            for x in a[0]:
+                yield val(x)
+            raise ValueError('iterable failed')
+        return getattr(d, name.split('_')[0])(items())
     if name == 'iadd':
         d += [val(x) for x in a[0]]
         return None
@@ -236,6 +244,7 @@ def alphabet(tier):
     ops = [('append', 0), ('append', 'x'), ('append', BIG),
            ('appendleft', 0), ('appendleft', 'x'),
            ('extend', (0, 'x')), ('extendleft', ('x', BIG)), ('iadd', (1, 0)),
+           ('extend_raising', (1, BIG)), ('extendleft_raising', (1, 'x')),
            ('pop',), ('popleft',), ('peek',), ('peekleft',),
            ('reverse',), ('remove', 0), ('remove', 'x'), ('remove', 9),
            ('count', 0), ('index', 'x'), ('contains', 0), ('contains', BIG),
